@@ -33,7 +33,7 @@ children that are again in the fragment, arguments `key=value` / `key op value` 
 CALL of the fragment as argument value: `C26_forward_call_args`) with keys that are
 field names (letter, then letters/digits/`_`/`-`) or reserved names (`_row _col _start _end _timestamp
 _field`: `C26_forward_reserved_keys`) in strictly increasing order, at least one child or argument,
-and values int64, nil, bool, string (ANY byte string, valid UTF-8 or not; a string whose quoted form
+and values int64, float64 (canonical decimal text: `C26_forward_float`), nil, bool, string (ANY byte string, valid UTF-8 or not; a string whose quoted form
 is exactly a timestamp is read by the timestamp alternative of `item`, with the same value),
 non-empty lists of int64 / strings / booleans / nil in any mix with a last element that is not a
 keyword (`C26_forward_mixed_lists`), and conditions `== != < <= > >= ><` on an int64 or on a list of
@@ -42,7 +42,7 @@ It goes through the generic PEG interpreter on the grammar REGENERATED from pql.
 alternatives of `Call` and of `item`, `arg`, `args`, all three of `allargs`, `Calls`), the model of the
 action machine with its call stack and the models of strconv.Quote/Unquote, for every table of
 printable characters.
-Excluded and still correspondence-only: floats, calls without
+Excluded and still correspondence-only: floats under a condition or inside a list, calls without
 children and arguments, `ClearRow` / `Store` in other shapes than `ClearRow(key=value)` /
 `Store(Child(..), key=value)`, and the form `Range(key=value, ..)`; uint64 and typed id lists are recorded findings (they cannot
 round-trip: see the witnesses below). -/
@@ -248,6 +248,49 @@ example : FlatCall (fun c => c.toNat ≥ 32 && c.toNat < 127) cl!"TopN"
       · simp [FwdScalar]
       · trivial
     · exact ⟨.inl ⟨'n', [], rfl, by decide, by simp⟩, by decide, by decide⟩
+  sorted := by simp [SortedKeys, ltKey]
+
+/-- Floats, value layer: `formatFloat` of a float64 (canonical decimal text `t`, see `CanonFloat`) is read
+by `addNumVal` as the same float64: `normDec (formatFloat t) = t` (the `.0` that `formatFloat` appends
+to an integral value is dropped again, nothing else changes). -/
+theorem C26_float_roundtrip (t : List Char) (h : CanonFloat t) : numVal (fmtFloat t) = .ok (.float t) := by
+  obtain ⟨neg, ip, fp', hfmt, _, _, _, hnorm⟩ := float_roundtrip t h
+  have := numVal_float neg ip fp'
+  rw [← hfmt, hnorm] at this
+  exact this
+
+/-- C26_forward for float64 arguments (opaque decimal text): `key=<formatFloat f>` is read by the first
+numeric alternative of `item` (`-?d+.d*`) and stored as the same float64 (dynamic type `float64`, not
+int64, because the printed text always has a `.`). -/
+theorem C26_forward_float (isPrint : Char → Bool) (hnl : isPrint '\n' = false)
+    (name : List Char) (k : Key) (t : List Char) (hn : IdentName name) (hok : NameOk name)
+    (hnr : name ≠ rangeKw) (hk : KeyName k) (ht : CanonFloat t) :
+    (∃ n, parseN n (fmtCall isPrint (.mk name [(k, .float t)] [])) = .ok [.mk name [(k, .float t)] []]) ∧
+    (∀ n, parseN n (fmtCall isPrint (.mk name [(k, .float t)] [])) = .error .fuel ∨
+          parseN n (fmtCall isPrint (.mk name [(k, .float t)] [])) = .ok [.mk name [(k, .float t)] []]) :=
+  C26_forward_flat_partial isPrint hnl name _
+    ⟨hn, ⟨hok, fun h => absurd h hnr⟩, by simp,
+      fun kv hkv => by
+        simp only [List.mem_singleton] at hkv
+        subst hkv
+        exact ⟨hk, ht⟩,
+      by simp [SortedKeys]⟩
+
+/-- Non-vacuity: `SetRowAttrs(x=1.5, y=-2.0)` (values 1.5 and -2) is in the flat fragment. -/
+example : FlatCall (fun c => c.toNat ≥ 32 && c.toNat < 127) cl!"SetRowAttrs"
+    [(cl!"x", .float cl!"1.5"), (cl!"y", .float cl!"-2")] where
+  name_ok := ⟨'S', cl!"etRowAttrs", rfl, by decide, by decide⟩
+  name_free := ⟨by decide, fun h => absurd h (by decide)⟩
+  nonempty := by simp
+  args_ok := by
+    intro kv hkv
+    simp only [List.mem_cons, List.not_mem_nil, or_false] at hkv
+    rcases hkv with rfl | rfl
+    · exact ⟨.inl ⟨'x', [], rfl, by decide, by simp⟩, false, ['1'], ['5'], by simp [signText], by simp,
+        by decide, by decide, Or.inr (by simp),
+        by intro u e; have := congrArg List.getLast? e; simp at this⟩
+    · exact ⟨.inl ⟨'y', [], rfl, by decide, by simp⟩, true, ['2'], [], by simp [signText], by simp,
+        by decide, by simp, Or.inr (by simp), by simp⟩
   sorted := by simp [SortedKeys, ltKey]
 
 /-- C26_forward for `ClearRow(key=value)`: here the DEDICATED alternative of `Call`
